@@ -51,6 +51,7 @@ type genOpts struct {
 	distinctW   bool // pairwise distinct weights
 	noCurrent   bool // no currentChoice
 	extraWeight bool // allow a superfluous weight entry where the method accepts it
+	vetoHeavy   bool // ELECTRE: every criterion has q, p and v (several discordant criteria per pair)
 }
 
 type genReq struct {
@@ -234,9 +235,11 @@ func genRequest(r *rand.Rand, o genOpts) *genReq {
 		}
 		mp["weights"] = cw
 	case "electreIII":
-		mp["electreCriteria"] = genElectreCriteria(r, ids, o.profile)
+		mp["electreCriteria"] = genElectreCriteria(r, ids, o.profile, o.vetoHeavy)
 		if r.Intn(2) == 0 {
-			mp["electreDistillation"] = M{"a": -float64(r.Intn(5)) / 16, "b": 0.3125 + float64(r.Intn(4))/16}
+			// any linear function that is non-negative on [0,1] with a non-positive slope (incl. s = 0)
+			k := r.Intn(9)
+			mp["electreDistillation"] = M{"a": -float64(r.Intn(k+1)) / 16, "b": float64(k) / 16}
 		}
 	case "majorityHeuristic":
 		mp["weights"] = w
@@ -295,7 +298,7 @@ func genRequest(r *rand.Rand, o genOpts) *genReq {
 	return g
 }
 
-func genElectreCriteria(r *rand.Rand, ids []string, profile string) M {
+func genElectreCriteria(r *rand.Rand, ids []string, profile string, heavy bool) M {
 	ec := M{}
 	for _, id := range ids {
 		e := M{"k": genWeight(r, profile)}
@@ -314,14 +317,14 @@ func genElectreCriteria(r *rand.Rand, ids []string, profile string) M {
 			p = q + 0.1 + r.Float64()*3
 			v = p + 0.1 + r.Float64()*4
 		}
-		if r.Intn(4) != 0 && q > 0 {
+		if (heavy || r.Intn(4) != 0) && q > 0 {
 			e["q"] = M{"b": q}
 		}
-		hasP := r.Intn(4) != 0
+		hasP := heavy || r.Intn(4) != 0
 		if hasP {
 			e["p"] = M{"b": p}
 		}
-		if hasP && r.Intn(2) == 0 {
+		if hasP && (heavy || r.Intn(2) == 0) {
 			e["v"] = M{"b": v}
 		}
 		ec[id] = e
